@@ -437,8 +437,8 @@ func main() {
 		Info: func() map[string]any {
 			return map[string]any{
 				"real_code":       []string{"v2 classifier (tokenizer, searchset, scoring, diff), go-diff: compiled unmodified from the tree under test"},
-				"simulated":       []string{"io.Reader handed to MatchFrom: fragmentation, zero-length reads, data-with-EOF, sticky faults of 6 kinds (sentinel, wrapped sentinel, io.ErrUnexpectedEOF, io.ErrClosedPipe, non-comparable error type, deadline) in 2 delivery forms"},
-				"enumerated":      fmt.Sprintf("%d fault cases = every offset 0..len of %d inputs x 6 error kinds x 2 delivery forms; %d pad cases = every width 0..%d of %d inputs", padBase, len(faultInputs), len(padInputs)*padWidths, padWidths-1, len(padInputs)),
+				"simulated":       []string{"io.Reader handed to MatchFrom: fragmentation, zero-length reads, data-with-EOF, sticky faults of 7 kinds (sentinel, wrapped sentinel, io.ErrUnexpectedEOF, io.ErrClosedPipe, non-comparable error type, error wrapping io.EOF, deadline) in 2 delivery forms"},
+				"enumerated":      fmt.Sprintf("%d fault cases = every offset 0..len of %d inputs x 7 error kinds x 2 delivery forms; %d pad cases = every width 0..%d of %d inputs", padBase, len(faultInputs), len(padInputs)*padWidths, padWidths-1, len(padInputs)),
 				"worlds":          []string{"full embedded corpus @0.8", "every 9th document @0.7", "every 9th document @1.0", "every 9th document plus a user-added document of accented words @0.8"},
 				"fault_free_runs": "seeded runs with index%3 != 2; faults only in runs with index%3 == 2 (separate configurations)",
 			}
